@@ -6,6 +6,7 @@
 //!
 //! * step counters with per-thread budgets in the loops that have no other progress measure
 //!   (including every loop of the splay tree),
+//! * an optional injected delay per loop step (to stretch an operation's wall-clock time),
 //! * branch hit counters, so that a harness can show which code its workload went through,
 //! * a log of segment divisions (requested point, point actually used, left/right swap),
 //! * an observer that receives the processed event and an in-order snapshot of the sweep line
@@ -109,6 +110,7 @@ thread_local! {
     static HITS: RefCell<Vec<u64>> = RefCell::new(vec![0; N_SITES]);
     static STEPS: Cell<[u64; 5]> = const { Cell::new([0; 5]) };
     static BUDGET: Cell<[u64; 5]> = const { Cell::new([u64::MAX; 5]) };
+    static DELAY_NS: Cell<[u64; 5]> = const { Cell::new([0; 5]) };
     static DIVISIONS: RefCell<Option<Vec<Division>>> = const { RefCell::new(None) };
     static OBSERVER: Cell<(*mut (), &'static str)> = const { Cell::new((std::ptr::null_mut(), "")) };
 }
@@ -138,6 +140,14 @@ pub fn set_budget(which: Loop, max_steps: u64) {
     BUDGET.with(|c| c.set(b));
 }
 
+/// Injects a busy-wait of `nanos` into every step of one loop for the current thread (0 = off, the default): lets a
+/// harness stretch the wall-clock duration of an operation without changing what it computes.
+pub fn set_step_delay(which: Loop, nanos: u64) {
+    let mut d = DELAY_NS.with(|d| d.get());
+    d[which as usize] = nanos;
+    DELAY_NS.with(|c| c.set(d));
+}
+
 pub fn reset_steps() {
     STEPS.with(|s| s.set([0; 5]));
 }
@@ -152,6 +162,13 @@ pub fn step(which: Loop) {
     let mut s = STEPS.with(|s| s.get());
     s[which as usize] += 1;
     STEPS.with(|c| c.set(s));
+    let delay = DELAY_NS.with(|d| d.get()[which as usize]);
+    if delay > 0 {
+        let t0 = std::time::Instant::now();
+        while (t0.elapsed().as_nanos() as u64) < delay {
+            std::hint::spin_loop();
+        }
+    }
     let budget = BUDGET.with(|b| b.get()[which as usize]);
     // never from a destructor that runs while a panic (possibly this very one) is already unwinding: that would abort
     if s[which as usize] > budget && !std::thread::panicking() {
